@@ -52,6 +52,21 @@ def layerRun (S : Sc α) (h : SM) (lam : List α) : Nat → Option (List (List (
     | none => none
     | some (rcv, vars) => (BPRef.layerIter (A := arith S) 0 rcv vars).map (fun r => (r.1, r.2.1))
 
+/-- the same two schedules (no syndrome stop) for an ARBITRARY arithmetic record, on already quantised channel values -/
+def floodRunA (A : Arith) (h : SM) (lam : List A.Llr) : Nat → Option (List (List (Nat × A.VarMsg)) × List A.Llr)
+  | 0 => some (BPRef.initEmitted (A := A) h lam, lam)
+  | t + 1 =>
+    match floodRunA A h lam t with
+    | none => none
+    | some (em, _) => (BPRef.floodIter (A := A) h lam em).map (fun r => (r.1, r.2.1))
+
+def layerRunA (A : Arith) (h : SM) (lam : List A.Llr) : Nat → Option (List (List (Nat × A.CheckMsg)) × List A.VarLlr)
+  | 0 => some (Store.blank A.dCheck h.rows, lam.map A.toVarLlr)
+  | t + 1 =>
+    match layerRunA A h lam t with
+    | none => none
+    | some (rcv, vars) => (BPRef.layerIter (A := A) 0 rcv vars).map (fun r => (r.1, r.2.1))
+
 /-- all words of length `n` -/
 def allWords : Nat → List (List Bool)
   | 0 => [[]]
